@@ -83,6 +83,12 @@ def run_shard(shard, ctx):
             ext = [["SPARSE", 24, "RW", "a"], ["FLAT", 24, "RW", "b"]]
             ext.insert(pos, ["FLAT", sectors, "RW", "off", None, start])
             run_case({"kind": "vmdk", "extents": ext}, ctx)
+        # file names with a double quote followed by a blank (and then 0..3 further words, as many as an extent line has
+        # optional fields)
+        for name in ('data "v2" copy', 'a" b', 'x " y " z', 'one" two three four', 'q" 4'):
+            for k, start in (("FLAT", 4), ("FLAT", None), ("SPARSE", None), ("VMFS", None)):
+                ext = [k, 24, "RW", name] + ([None, start] if start else [])
+                run_case({"kind": "vmdk", "extents": [["SPARSE", 16, "RW", "first"], ext, ["FLAT", 16, "RW", "last"]]}, ctx)
         for eol in ("crlf", "blank", "tab-crlf", "blanks-crlf"):
             for ks in (("FLAT", "SPARSE", "FLAT"), ("SPARSE",), ("VMFS", "VMFSSPARSE"), ("SESPARSE", "FLAT")):
                 run_case({"kind": "vmdk", "extents": [[k, SIZES[j % 3], "RW", NAMES[j % 6] + str(j)] for j, k in enumerate(ks)],
